@@ -641,9 +641,9 @@ def uses_edge_mean(e):
     return any(uses_edge_mean(x) for x in e[1:] if isinstance(x, tuple))
 
 
-FLAG_NAMES = ["fx_node_wrap", "fx_face_deg", "fx_edge_deg", "fx_face_norm", "fx_edge_norm", "fx_edge_check",
-              "fx_face_check"]
-REPO_FLAGS = [0] * 7
+FLAG_NAMES = ["fx_node_wrap", "fx_node_after", "fx_face_deg", "fx_edge_deg", "fx_face_norm", "fx_edge_norm",
+              "fx_edge_check", "fx_face_check"]
+REPO_FLAGS = [0] * 8
 
 
 def read_repo_flags(ck):
